@@ -64,15 +64,24 @@ pub fn run(args: &Args) {
         let mut loaded: Vec<bool> = vec![false; lazy.get_sheet_count()];
         let mut hist: Vec<String> = vec![];
         let nops = rng.range(1, 10);
+        let focus = rng.chance(1, 3);
+        if focus {
+            o.feat("history:objects-added-before-unloaded-sheets");
+        }
         let mut uid = 0;
         'ops: for _ in 0..nops {
             let n = lazy.get_sheet_count();
             if n == 0 {
                 break;
             }
-            let i = rng.below(n as u64) as usize;
+            let mut i = rng.below(n as u64) as usize;
+            let mut op = rng.below(15);
+            if focus {
+                // early sheets gain objects (comments, charts) while the later sheets stay unloaded until the save
+                i = rng.below(n.min(2) as u64) as usize;
+                op = *rng.pick(&[2u64, 5, 13, 14, 13, 9, 7]);
+            }
             let name_i = lazy.get_sheet_collection_no_check()[i].get_name().to_string();
-            let mut op = rng.below(13);
             // in-range arguments only: no insert below content that already sits on the last row
             if op == 10 {
                 let ws = &eager.get_sheet_collection_no_check()[i];
@@ -152,16 +161,43 @@ pub fn run(args: &Args) {
                             loaded.iter_mut().for_each(|x| *x = true);
                         }
                     }
-                    _ => {
+                    12 => {
                         let ws = b.get_sheet_by_name_mut(&name_i).unwrap();
                         ws.remove_cell((1, 1));
                         if lazy_side {
                             loaded[i] = true;
                         }
                     }
+                    13 => {
+                        // a loaded sheet gains a comment (new comments / vmlDrawing parts next to those of unloaded sheets)
+                        let ws = b.get_sheet_mut(&i).unwrap();
+                        let mut c = Comment::default();
+                        c.new_comment(format!("B{}", 60 + uid % 7).as_str());
+                        c.set_text_string(format!("lazy-comment-{}-{}", k, uid));
+                        c.set_author("uvh");
+                        ws.add_comments(c);
+                        if lazy_side {
+                            loaded[i] = true;
+                        }
+                    }
+                    _ => {
+                        // a loaded sheet gains a chart (new drawing / chart parts)
+                        let q = format!("'{}'", name_i.replace('\'', "''"));
+                        let series = vec![format!("{}!$B$2:$B$6", q), format!("{}!$C$2:$C$6", q)];
+                        let mut from = umya_spreadsheet::structs::drawing::spreadsheet::MarkerType::default();
+                        let mut to = umya_spreadsheet::structs::drawing::spreadsheet::MarkerType::default();
+                        from.set_coordinate("H20");
+                        to.set_coordinate("N30");
+                        let mut chart = Chart::default();
+                        chart.new_chart(ChartType::LineChart, from, to, series.iter().map(|s| s.as_str()).collect());
+                        b.get_sheet_mut(&i).unwrap().add_chart(chart);
+                        if lazy_side {
+                            loaded[i] = true;
+                        }
+                    }
                 })
             };
-            desc = format!("{}({})", ["read_sheet", "read_sheet_by_name", "get_sheet_mut", "get_sheet_by_name_mut", "read_sheet_collection", "edit", "edit", "new_sheet", "remove_sheet", "set_sheet_name", "insert_new_row", "remove_column", "remove_cell"][op as usize], i);
+            desc = format!("{}({})", ["read_sheet", "read_sheet_by_name", "get_sheet_mut", "get_sheet_by_name_mut", "read_sheet_collection", "edit", "edit", "new_sheet", "remove_sheet", "set_sheet_name", "insert_new_row", "remove_column", "remove_cell", "add_comment", "add_chart"][op as usize], i);
             hist.push(desc.clone());
             o.count(&format!("op.{}", desc.split('(').next().unwrap()), 1);
             let mut dummy = vec![];
